@@ -55,7 +55,8 @@ def run_loops(ctx):
                 continue
             v = head.rsplit("::", 1)[1]
             removes = any(x.get("k") == "mcall" and x["method"] in ("swap_remove", "remove") for x in H.walk(arm["body"]))
-            keeps = any(x.get("k") == "assign" and x["op"] == "Add" and H.local_name(x["l"]) == "i" for x in H.walk(arm["body"]))
+            # `i += 1` on the loop index (any local name): the run stays and the scan moves on
+            keeps = any(x.get("k") == "assign" and x["op"] == "Add" and H.strip(x["l"]).get("k") == "path" and H.show(x["r"]) == "1" for x in H.walk(arm["body"]))
             tab[v] = "remove" if removes and not keeps else "keep" if keeps and not removes else "?"
             pushes = any(x.get("k") == "mcall" and x["method"] in ("push", "extend") for x in H.walk(arm["body"]))
             if v in ("Complete", "CompleteMulti", "CompleteAndContinue") and not pushes:
@@ -70,6 +71,48 @@ def run_loops(ctx):
             else:
                 ctx.violation("loop-arms", key, "%s: a run whose advance result is %s is %s; the contract is %s (a completed or invalidated run is removed exactly once, others stay)" % (name, v, {"keep": "kept", "remove": "removed", None: "not handled", "?": "handled in an unrecognised way"}[got], want), site=ms[0]["sp"])
     ctx.sample({"run_loop_tables": {k.rsplit("::", 1)[1]: v for k, v in tables.items()}})
+
+
+def run_prologue(ctx):
+    """Before a run is advanced with the event, both run loops must drop it when it is timed out OR was invalidated by a
+    global negation (check_global_negations only sets Run.invalidated; the removal happens here): sibling agreement of the
+    skip condition, and `invalidated` must be part of it — otherwise an invalidated run keeps advancing and completes."""
+    atoms = {}
+    for fn in sorted(ADV):
+        h = ctx.need_hir(fn, rule="loop-prologue")
+        name = fn.rsplit("::", 1)[1]
+        found = None
+        for lp in H.walk(h["body"]):
+            if lp.get("k") != "loop":
+                continue
+            if not any(x.get("k") == "call" and str(x.get("callee", "")).endswith("sase::advance_run_shared") for x in H.walk(lp["body"])):
+                continue
+            for x in H.walk(lp["body"]):
+                if x.get("k") == "if" and any(y.get("k") == "mcall" and y["method"] in ("swap_remove", "remove") for y in H.walk(x["then"])) \
+                        and any(y.get("k") == "continue" for y in H.walk(x["then"])) and not any(y.get("k") == "match" for y in H.walk(x["then"])):
+                    found = x
+                    break
+            if found:
+                break
+        if not found:
+            ctx.violation("loop-prologue", name + ":present", "%s advances runs without first dropping timed-out / invalidated ones (no `if <cond> { remove; continue }` before advance_run_shared in the run loop)" % name, site=h["span"])
+            continue
+        c = found["cond"]
+        a = {("field", y["name"]) for y in H.walk(c) if y.get("k") == "field" and y.get("adt", "").endswith("sase::Run")} | \
+            {("call", y["method"]) for y in H.walk(c) if y.get("k") == "mcall" and str(y.get("def", "")).startswith("varpulis_runtime::sase::Run::")}
+        atoms[name] = (a, found["sp"])
+        if ("field", "invalidated") in a:
+            ctx.ok("loop-prologue", name + ":invalidated", "skip condition: %s" % sorted(a), site=found["sp"])
+        else:
+            ctx.violation("loop-prologue", name + ":invalidated", "%s drops a run before advancing it only under %s: a run invalidated by a `.not(..)` event (Run.invalidated, set by check_global_negations) is still advanced and can complete, so a match is emitted although the forbidden event occurred" % (name, sorted(x[1] for x in a)), site=found["sp"])
+    if len(atoms) == 2:
+        (n1, (a1, s1)), (n2, (a2, s2)) = sorted(atoms.items())
+        if a1 == a2:
+            ctx.ok("loop-prologue", "siblings-agree", "both loops skip under %s" % sorted(x[1] for x in a1))
+        else:
+            ctx.violation("loop-prologue", "siblings-agree", "the two run loops drop runs under different conditions: %s under %s, %s under %s — partitioned and unpartitioned programs treat the same run differently" % (
+                n1, sorted(x[1] for x in a1), n2, sorted(x[1] for x in a2)), site=s1)
+    ctx.sample({"loop_prologues": {k: sorted(x[1] for x in v[0]) for k, v in atoms.items()}})
 
 
 def run_single_capture(ctx):
@@ -93,4 +136,5 @@ def run_single_capture(ctx):
 def run(ctx):
     ctx.guard("advance-before-start", lambda: run_order(ctx))
     ctx.guard("loop-arms", lambda: run_loops(ctx))
+    ctx.guard("loop-prologue", lambda: run_prologue(ctx))
     ctx.guard("single-capture", lambda: run_single_capture(ctx))
